@@ -171,6 +171,8 @@ def run_scenarios(scens, servertype, timeout, seed, validator_install="class"):
             lab.log = []
             sc.set_budget(4000)
             lab.validator = scen["validator"]
+            # (an answer of the validator that does not fit into a message: the limit is lowered while that validator is in place)
+            lab.config.MAX_MESSAGE_SIZE = 100000 if scen["validator"] == "return:huge" else 1073741824
             rc = lab.raw()
             lab.log.append({"e": "First", "c": rc.cid, "accept": scen["accept"], "mustreason": scen["mustreason"]})
             data = first_bytes(scen["first"], ser, rng)
